@@ -595,7 +595,7 @@ def run(chk):
             real_out[i + j * n_chunks] = o
 
     # ---- (2) end to end
-    n_e2e = 240 if chk.quick else 3000
+    n_e2e = 210 if chk.quick else 3000
     specs = [_gen_spec(chk.rng, chk.quick, i) for i in range(n_e2e)]
     recs = common.pmap(_e2e_worker, specs)
     infra = [r['infra'] for r in recs if 'infra' in r]
@@ -669,9 +669,9 @@ def run(chk):
     broken = bool(chk.proof_broken or chk.corr_disagreements)
     new_keys = {v['key'] for v in chk.violations} - set(common.load_known(chk.prop))
     if broken and not new_keys:
-        extra_specs = [_gen_spec(chk.rng, False, i) for i in range(4 * n_e2e)]
+        extra_specs = [_gen_spec(chk.rng, False, i) for i in range(3 * n_e2e)]
         _oracle_e2e(chk, extra_specs, common.pmap(_e2e_worker, extra_specs))
-        extra = _reassign_cases(chk, 4)[len(cases):]
+        extra = _reassign_cases(chk, 3)[len(cases):]
         chunks = [extra[i::n_chunks] for i in range(n_chunks)]
         outs = common.pmap(_reassign_chunk, chunks)
         for i, ch in enumerate(outs):
